@@ -56,9 +56,11 @@ def run(prop, tier, verdict):
     exhaustive = tier == 'thorough'
     if not exhaustive:
         rnd = random.Random(seedv)
-        few = lambda s: s['cfg'].get('wret') == 'late' or s['cfg'].get('kind') == 'badtype' or s['cfg'].get('pre', 'none') != 'none'     # few: always replayed
+        few = lambda s: s['cfg'].get('wret') == 'late' or s['cfg'].get('kind') == 'badtype' or s['cfg'].get('pre', 'none') != 'none' or s['cfg'].get('res', 'std') != 'std'     # few: always replayed
         late = [s for s in scen if few(s)]
         scen = rnd.sample([s for s in scen if not few(s)], 3500) + late
+    # the scenarios with an exhausted goroutine pool shrink the pool of the whole process: they are replayed last
+    scen.sort(key=lambda s: s['cfg'].get('res') == 'poolfull')
     for i, s in enumerate(scen):
         s['id'] = 'd%d' % i
     scfile = os.path.join(wd, 'scen.ndjson')
